@@ -39,7 +39,9 @@ VARIANTS = (
     # window smaller than the matrix (the default window of 12 never bites for n <= 5)
     + [("quaternion_schur_experimental", {"variant": v, "window": 2}) for v in ("aed_windowed", "francis_ds")]
 )
-CLASSES = ["generic", "hermitian", "hermitian_repeat", "triu", "normal", "rank1", "q8int", "zero_first_col", "zero_subdiag", "identity", "zero", "near_hermitian", "near_triu", "scaled_2^-30", "scaled_2^30"]
+CLASSES = ["generic", "hermitian", "hermitian_repeat", "triu", "normal", "rank1", "q8int", "zero_first_col", "zero_subdiag", "identity", "zero", "near_hermitian", "near_triu", "scaled_2^-30", "scaled_2^30",
+           "sp:cyclic_shift", "sp:cyclic_shift_q", "sp:exchange", "sp:lower_shift", "sp:upper_shift", "sp:companion", "sp:ones", "sp:path_laplacian",
+           "mask:k", "mask:1k", "mask:ij", "mask:jk"]
 
 
 def vname(fn, kw):
@@ -101,6 +103,13 @@ def make(cls, n, fill):
         P_ = np.ldexp(fill.quat(n, n, bits=3, lo=-16, hi=16), -22)
         for i in range(n):
             A[i, :i] = P_[i, :i]
+    elif cls.startswith("sp:"):
+        A = G.special(cls[3:], n, fill)
+    elif cls.startswith("mask:"):
+        mk = sum(1 << "1ijk".index(ch) for ch in cls[5:])
+        B_ = fill.quat_int(n, n, -3, 3).astype(float)
+        B_[B_ == 0] = 1.0
+        A = G.apply_component_mask(B_, mk)
     elif cls.startswith("scaled_2^"):
         A = np.ldexp(A, int(cls.split("^")[1]))
     elif cls == "identity":
@@ -119,7 +128,7 @@ def run_case(case, seed):
     A, lam = make(cls, n, fill)
     Aq = G.to_quat(A)
     nA = max(1.0, O.fro(A))
-    is_herm = cls in ("hermitian", "hermitian_repeat", "identity", "zero")
+    is_herm = cls in ("hermitian", "hermitian_repeat", "identity", "zero", "sp:exchange", "sp:ones", "sp:path_laplacian")
     tags = {"fn": fn_name, "variant": vname(fn_name, kw), "cls": cls, "n": n, "tol": tol}
     fails = []
     states = []
